@@ -331,6 +331,25 @@ def gen_ops(b, rng, n):
     act_names = [a["name"] for a in rec.get("actions", [])]
     fl_names = [f["name"] for f in rec["fluents"]]
 
+    def every_name():
+        """names of every kind of element of the problem (fluents, actions, objects, types, tasks, methods, agents, agent / environment
+        fluents, activities): an edit that re-uses a name of ANOTHER kind must be judged alike by the original and the clone"""
+        pb, out = b.pb, set()
+        for attr in ("fluents", "actions", "all_objects", "user_types", "tasks", "methods", "agents", "activities"):
+            try:
+                out |= {x.name for x in getattr(pb, attr)}
+            except Exception:
+                pass
+        try:
+            out |= {f.name for f in pb.ma_environment.fluents}
+            for ag in pb.agents:
+                out |= {f.name for f in ag.fluents} | {a.name for a in ag.actions}
+        except Exception:
+            pass
+        return sorted(out)
+
+    cross = every_name()
+
     def ground(numeric=None):
         cands = ground_exps(g, rec, (lambda f: True) if numeric is None else (lambda f: (f["type"] != "bool" and f["type"][0] in ("int", "real")) == numeric))
         cands = [(f["type"], fe) for f, fe in cands] + [(t, ["f", nm]) for nm, t in new_fluents if numeric is None or (t != "bool" and t[0] in ("int", "real")) == numeric]
@@ -344,14 +363,16 @@ def gen_ops(b, rng, n):
         if cls in ("Problem", "ContingentProblem", "HierarchicalProblem"):
             kinds += ["add_action", "timed_effect", "timed_effect", "timed_effect", "timed_goal", "traj", "metric", "action_effect", "action_effect"]
         elif cls == "MultiAgentProblem":
-            kinds += ["add_action", "action_effect", "action_effect", "agent_fluent", "agent_fluent"]
+            kinds += ["add_action", "action_effect", "action_effect", "agent_fluent", "agent_fluent", "agent_newtype"]
         else:
             kinds += ["timed_effect", "timed_effect", "timed_effect", "add_activity", "metric", "action_effect", "sched_constraint"]
             kinds.remove("add_goal")
         k = rng.choice(kinds)
         if k == "add_fluent":
-            clash = rng.random() < 0.15
+            clash = rng.random() < 0.2
             name = rng.choice(fl_names + [nm for nm, _ in new_fluents]) if clash else f"nf{i}"
+            if clash and cross and rng.random() < 0.55:
+                name = rng.choice(cross)
             t = rng.choice(["bool", ["int", None, None], ["int", 0, 5], ["real", None, None], ["user", rec["types"][0][0]]])
             if cls == "MultiAgentProblem":
                 t = rng.choice(["bool", ["int", None, None]])
@@ -369,15 +390,22 @@ def gen_ops(b, rng, n):
             if d is None and ("bool" if t == "bool" else "integer") not in b.extra["idf"] and rng.random() < 0.8:
                 d = const(t)
             ops.append({"op": "agent_fluent", "agent": rng.choice(b.extra["agents"]), "public": rng.random() < 0.5, "name": name, "type": t, "default": d})
+        elif k == "agent_newtype":
+            # an agent-level edit that brings a user type the problem does not know yet (fluent signature / fluent type / action parameter)
+            ops.append({"op": "agent_newtype", "agent": rng.choice(b.extra["agents"]), "name": f"ant{i}", "type_name": f"NT{i}", "how": rng.choice(["signature", "type", "parameter"]), "sub": rng.random() < 0.3})
         elif k == "add_object":
-            clash = rng.random() < 0.15
+            clash = rng.random() < 0.2
             name = rng.choice([o for o, _ in rec["objects"]]) if clash else f"no{i}"
+            if clash and cross and rng.random() < 0.55:
+                name = rng.choice(cross)
             ops.append({"op": "add_object", "name": name, "type": rng.choice(rec["types"])[0]})
             if not clash:
                 new_objects.append(name)
         elif k == "add_action":
-            clash = rng.random() < 0.15 and act_names
+            clash = rng.random() < 0.2 and act_names
             name = rng.choice(act_names) if clash else f"na{i}"
+            if clash and cross and rng.random() < 0.55:
+                name = rng.choice(cross)
             tgt = ground()
             effs = []
             if tgt is not None and const(tgt[0]) is not None:
@@ -537,6 +565,18 @@ class Side:
                 m(fl, default_initial_value=ctx.expr(op["default"]))
             else:
                 m(fl)
+        elif k == "agent_newtype":
+            from unified_planning.model.types import BOOL
+
+            tm = env.type_manager
+            T = tm.UserType(op["type_name"], tm.UserType(op["type_name"] + "_top")) if op["sub"] else tm.UserType(op["type_name"])
+            ag = pb.agent(op["agent"])
+            if op["how"] == "parameter":
+                ag.add_action(InstantaneousAction(op["name"], OrderedDict(q=T), env))
+            elif op["how"] == "signature":
+                ag.add_private_fluent(Fluent(op["name"], BOOL, OrderedDict(q=T), env), default_initial_value=False)
+            else:
+                ag.add_public_fluent(Fluent(op["name"], T, OrderedDict(), env))
         elif k == "add_object":
             o = ctx.objects.get("new:" + op["name"] + op["type"])
             if o is None:
